@@ -80,9 +80,10 @@ BaseTable(name) ==
     [] name = "odd"     -> MkA(25, 55, 19, 21, 15, 7, 3, 1, 11, 5)
     [] name = "even"    -> MkA(26, 56, 22, 20, 16, 8, 4, 2, 12, 6)
     [] name = "mixed"   -> MkA(1, 64, 17, 2, A, 3, A, 16, A, 1)
+    [] name = "tiny"    -> MkA(1, 1, 17, 1, A, A, A, A, A, A)      \* shortest legal group: 82 bytes
     [] name = "zeros"   -> MkA(0, 0, 0, 0, 0, 0, 0, 0, 0, 0)
     [] name = "max"     -> MkA(64, 64, 64, 64, 16, 16, 16, 16, 64, 64)
-AllBaseNames == {"minimal", "odd", "even", "mixed", "zeros", "max"}
+AllBaseNames == {"minimal", "tiny", "odd", "even", "mixed", "zeros", "max"}
 
 (* ---- operations ---- *)
 Act(a, kind, n) == [a |-> a, kind |-> kind, n |-> n]     \* kind: "text" (string of length n), "num" (a number), ""
